@@ -637,7 +637,7 @@ func checkBufferRefill(p *Program, r *Report, models []*Model) {
 	}
 	r.Analysed["R06.7 rewrites not judged (start or predecessor not expressible in the caller's quantities)"] = notJudged
 	r.Analysed["R06.7 per-timestep rewrites inside a loop of the kernel (not continuity-relevant, not judged)"] = perStepEvents
-	r.Floor("R06.7", "state-buffer rewrites", n, 2)
+	r.Floor("R06.7", "state-buffer rewrites", n, 1)
 }
 
 // firstOfChain: e has a known summary and w is the first event of its chain (so every caller judges it through the
@@ -657,4 +657,179 @@ func (c *rfCtx) firstOfChain(e *rfEntry, w *rfEvent) bool {
 		}
 	}
 	return len(e.sites) > 0
+}
+
+// checkEntryClamps (R06.8): a state is not cut on the way in. Where a state argument reaches the variable carried
+// around the time loop through math.Min / math.Max against a bound B that is not a constant (a capacity), the loop
+// itself has to hold the carried variable against the same B — a comparison or a Min/Max inside the loop with B on
+// one side and the carried variable on the other. Otherwise the uninterrupted run can produce values beyond B, and
+// every hot start cuts them back: the entry clamp states a belief about the state that the loop does not share.
+func checkEntryClamps(p *Program, r *Report, models []*Model) {
+	r.Rule("R06.8", "a state is not cut on the way in: where a state argument reaches the loop-carried variable through math.Min/math.Max against a non-constant bound B before the time loop, and the loop holds the same variable against a bound of its own (a comparison or Min/Max inside the loop with the carried variable on one side), that bound is B as well; an entry clamp against another bound than the loop's cuts, at every hot start, values the uninterrupted run carries on")
+	nClamps, notComparable := 0, 0
+	for _, m := range models {
+		k := m.Kernel
+		if k == nil || len(m.States) == 0 {
+			continue
+		}
+		key := m.RelPkg + "." + k.Name()
+		states := map[ssa.Value]string{}
+		for i := range m.States {
+			if len(m.Inputs)+i < len(k.Params) {
+				states[k.Params[len(m.Inputs)+i]] = m.States[i]
+			}
+		}
+		dependsOnState := func(v ssa.Value) string {
+			name := ""
+			dependsOn(v, func(x ssa.Value) bool {
+				if n, ok := states[x]; ok {
+					name = n
+					return true
+				}
+				return false
+			}, map[ssa.Value]bool{})
+			return name
+		}
+		for _, l := range timeLoops(k) {
+			for _, ins := range l.Header.Instrs {
+				phi, ok := ins.(*ssa.Phi)
+				if !ok {
+					break
+				}
+				web := phiWeb(phi)
+				inWeb := func(v ssa.Value) bool {
+					return dependsOn(v, func(x ssa.Value) bool { return web[x] && !isOutsideLoop(x, l) }, map[ssa.Value]bool{})
+				}
+				for ei, e := range phi.Edges {
+					if l.Blocks[l.Header.Preds[ei]] {
+						continue
+					}
+					// Min/Max calls on the way from a state to the entry value, outside the loop
+					seen := map[ssa.Value]bool{}
+					var walk func(v ssa.Value, depth int)
+					walk = func(v ssa.Value, depth int) {
+						if v == nil || seen[v] || depth > 8 {
+							return
+						}
+						seen[v] = true
+						ins, ok := v.(ssa.Instruction)
+						if !ok || l.Blocks[ins.Block()] {
+							return
+						}
+						if c, ok := v.(*ssa.Call); ok {
+							if f := c.Common().StaticCallee(); f != nil && fnPkg(f) != nil && fnPkg(f).Path() == "math" && (f.Name() == "Min" || f.Name() == "Max") && len(c.Common().Args) == 2 {
+								for i := 0; i < 2; i++ {
+									x, b := c.Common().Args[i], c.Common().Args[1-i]
+									st := dependsOnState(x)
+									if st == "" || dependsOnState(b) != "" {
+										continue
+									}
+									if _, isConst := b.(*ssa.Const); isConst {
+										continue
+									}
+									nClamps++
+									held := false
+									for blk := range l.Blocks {
+										for _, i2 := range blk.Instrs {
+											var ops []ssa.Value
+											switch y := i2.(type) {
+											case *ssa.BinOp:
+												switch y.Op {
+												case token.LSS, token.GTR, token.LEQ, token.GEQ:
+													ops = []ssa.Value{y.X, y.Y}
+												}
+											case *ssa.Call:
+												if g := y.Common().StaticCallee(); g != nil && fnPkg(g) != nil && fnPkg(g).Path() == "math" && (g.Name() == "Min" || g.Name() == "Max") && len(y.Common().Args) == 2 {
+													ops = y.Common().Args
+												}
+											}
+											if len(ops) != 2 {
+												continue
+											}
+											for j := 0; j < 2; j++ {
+												if (sameValue(ops[j], b) || origin1(ops[j]) != nil && origin1(ops[j]) == origin1(b)) && inWeb(ops[1-j]) {
+													held = true
+												}
+											}
+										}
+									}
+									// does the loop hold the variable against some *other* bound (an explicit comparison or Min/Max with
+									// the carried variable on one side and a non-constant on the other)?
+									other := ""
+									for blk := range l.Blocks {
+										for _, i2 := range blk.Instrs {
+											var ops []ssa.Value
+											switch y := i2.(type) {
+											case *ssa.BinOp:
+												switch y.Op {
+												case token.LSS, token.GTR, token.LEQ, token.GEQ:
+													ops = []ssa.Value{y.X, y.Y}
+												}
+											case *ssa.Call:
+												if g := y.Common().StaticCallee(); g != nil && fnPkg(g) != nil && fnPkg(g).Path() == "math" && (g.Name() == "Min" || g.Name() == "Max") && len(y.Common().Args) == 2 {
+													ops = y.Common().Args
+												}
+											}
+											if len(ops) != 2 {
+												continue
+											}
+											for j := 0; j < 2; j++ {
+												if _, isConst := ops[j].(*ssa.Const); isConst {
+													continue
+												}
+												if web[ops[1-j]] && !inWeb(ops[j]) && isOutsideLoop(origin1OrSelf(ops[j]), l) {
+													other = describeBound(p, origin1OrSelf(ops[j]))
+												}
+											}
+										}
+									}
+									ckey := fmt.Sprintf("%s:entry-clamp:%s", key, st)
+									if !held && other == "" {
+										notComparable++
+										continue // the loop states no bound of its own for this variable: nothing to contradict
+									}
+									if held {
+										r.OK("R06.8", fmt.Sprintf("%s: state `%s` is clamped on entry against a bound the time loop holds the carried variable to as well", key, st))
+									} else {
+										r.Fail("R06.8", ckey, p.Pos(c.Pos()), fmt.Sprintf("state `%s` is clamped by math.%s against %s before the time loop, while the loop itself holds the carried variable against a different bound (%s) and never against that one: the two disagree about how large the store may get, so the uninterrupted run carries values that every hot start cuts back — a split run loses (or gains) what the entry clamp removes", st, f.Name(), describeBound(p, b), other))
+									}
+								}
+							}
+						}
+						var ops [16]*ssa.Value
+						for _, op := range ins.Operands(ops[:0]) {
+							if op != nil {
+								walk(*op, depth+1)
+							}
+						}
+					}
+					walk(e, 0)
+				}
+			}
+		}
+	}
+	r.Analysed["R06.8 entry clamps of states against non-constant bounds"] = nClamps
+	r.Analysed["R06.8 entry clamps not judged (the loop states no bound of its own)"] = notComparable
+}
+
+func origin1OrSelf(v ssa.Value) ssa.Value {
+	if o := origin1(v); o != nil {
+		return o
+	}
+	return v
+}
+
+func isOutsideLoop(v ssa.Value, l *Loop) bool {
+	ins, ok := v.(ssa.Instruction)
+	return ok && !l.Blocks[ins.Block()]
+}
+
+func describeBound(p *Program, v ssa.Value) string {
+	if prm, ok := v.(*ssa.Parameter); ok {
+		return "`" + prm.Name() + "`"
+	}
+	if pos := v.Pos(); pos.IsValid() {
+		return "the value at " + p.Pos(pos)
+	}
+	return v.Name()
 }
